@@ -212,7 +212,8 @@ func WakePublishListeners(onlyInternal bool, subIDs ...uuid.UUID) {
 	for _, subID := range subIDs {
 		waitSet := pubWaiters[subID]
 		if waitSet == nil {
-			return
+			// no waiters on this subscription, there may be some on the next
+			continue
 		}
 		for c := range waitSet {
 			close(c)
